@@ -49,12 +49,12 @@ def match_known(res, known):
 
 
 def vkey(res):
-    return (res.get("prop"), res.get("monitor"), res.get("site"), res.get("fault") is None)
+    return (res.get("prop"), res.get("monitor"), res.get("fault") is None)
 
 
 def minimise(pool_req, mod, prop, doc, res, max_runs=120):
     """Greedy structural shrinking: accept a candidate iff the same (monitor, site) recurs."""
-    key = (res.get("monitor"), res.get("site"))
+    key = res.get("monitor")
     cur, cur_res = doc, res
     runs = 0
     progress = True
@@ -67,7 +67,7 @@ def minimise(pool_req, mod, prop, doc, res, max_runs=120):
         results = pool_req(reqs)
         runs += len(reqs)
         for c, r in zip(cands, results):
-            if r.get("outcome") == "violation" and (r.get("monitor"), r.get("site")) == key:
+            if r.get("outcome") == "violation" and r.get("monitor") == key:
                 cur, cur_res = c, r
                 progress = True
                 break
@@ -170,6 +170,7 @@ def check(prop, tier, verif_seed, max_runs=None, budget=None, nworkers=None, wri
         exit_code = 0
         lines = []
         reported = []
+        nmin = [0]
         for key, lst in sorted(groups.items(), key=lambda kv: str(kv[0])):
             seen_known = {}
             rest = []
@@ -185,7 +186,11 @@ def check(prop, tier, verif_seed, max_runs=None, budget=None, nworkers=None, wri
                 continue
             lst = rest
             d, r = lst[0]
-            md, mr, nshrink = minimise(lambda reqs: pool.map(reqs), mod, prop, d, r)
+            nmin[0] += 1
+            if nmin[0] <= 3 and time.time() - t0 < bwall + 120:
+                md, mr, nshrink = minimise(lambda reqs: pool.map(reqs), mod, prop, d, r, max_runs=80)
+            else:
+                md, mr, nshrink = d, r, 0
             path = write_replay(prop, md, mr, minimised_from=d if md is not d else None, shrink_runs=nshrink)
             conf = runner.run_fresh({"prop": prop, "doc": md, "wall_cap": 300}, scratch=scratch)
             if not (conf.get("outcome") == "violation" and conf.get("monitor") == mr.get("monitor")):
